@@ -160,10 +160,13 @@ func (ex *Exec) inline(fr *Frame, st *State, pc *Term, fn *ssa.Function, args, b
 	saved := work.defers
 	work.defers = nil
 	saveAssume := len(ex.assumptions)
+	saveKeep := len(ex.keepFacts)
 	ex.runBody(nf, work, True)
 	if nf.spec {
-		// specification code contributes no assumptions
+		// specification code contributes no assumptions, except range facts of uninterpreted results
+		// (assumeAlways), which hold wherever the term occurs
 		ex.assumptions = ex.assumptions[:saveAssume]
+		_ = saveKeep
 	}
 	if len(nf.results) == 0 {
 		// no normal return (always panics)
@@ -293,7 +296,16 @@ func (ex *Exec) evalClauseEnv(fr *Frame, st *State, pc *Term, cl *Clause, env *c
 		}
 	}
 	sf := &Frame{fn: fr.fn, vals: fr.vals, depth: fr.depth, spec: true}
-	return ex.inline(sf, st, pc, fn, args, nil, true, token.NoPos)
+	k0 := len(ex.keepFacts)
+	res := ex.inline(sf, st, pc, fn, args, nil, true, token.NoPos)
+	// range facts of uninterpreted results met while evaluating the clause stay available
+	for _, f := range ex.keepFacts[k0:] {
+		if !f.bound {
+			ex.assumptions = append(ex.assumptions, f)
+		}
+	}
+	ex.keepFacts = ex.keepFacts[:k0]
+	return res
 }
 
 // evalClause for the function being verified (top frame)
